@@ -1,10 +1,12 @@
 #!/bin/sh
 # usage: tools/trymut.sh <patch.diff> <Cxx> [tier]   -- apply a seeded change to /repo, run the check, undo it
+# (the evidence file of the clean tree is preserved: evidence written under a seeded change is not kept)
 set -u
 P="$1"; C="$2"; T="${3:-quick}"
 cd /repo || exit 2
 git diff --quiet || { echo "/repo not clean"; exit 2; }
 git apply "$P" || { echo "patch does not apply"; exit 2; }
+cp /verif/evidence/$C.json /tmp/evidence_$C.bak 2>/dev/null
 cd /verif && ./check "$C" "$T" 2>&1 | grep -v "^KNOWN-FINDING" | tail -${TAILN:-6}
-rc=$?
+cp /tmp/evidence_$C.bak /verif/evidence/$C.json 2>/dev/null
 cd /repo && git checkout -- . 
